@@ -881,6 +881,9 @@ def c20(ctx):
         must = [h for h in hs if (h["threshold"], "".join(h["history"])) in {(2, "PFPFF"), (1, "FFP"), (3, "PFFPF"), (2, "FFPFP"), (1, "PF"), (3, "PFFF")}]
         rest = [h for h in hs if h not in must]
         hs = must + rnd.sample(rest, 8)
+    # thresholds beyond the small ones (quick: the shortest of them; thorough: all)
+    big = sorted(cases.get("healthbig", []), key=lambda h: len(h["history"]))
+    hs = hs + (big if thorough else big[:1])
     cpath = os.path.join(ctx.scratch, "life_cases.json")
     json.dump({"health": hs, "retry": []}, open(cpath, "w"))
     ctx.extra["health_histories_enumerated_by_tlc"] = len(cases["health"])
